@@ -385,7 +385,8 @@ MANIFEST = {
             "Jf(m^2/T^2)) summed over the species axis with each temperature paired with its own masses; massless "
             "particles give the Stefan-Boltzmann value; ABS_ARGUMENT only replaces m^2 by |m^2|. Tables: every row "
             "of both shipped tables passes a local-smoothness / reality / monotonicity / decay scan (ground SMT "
-            "formulas over the real loaded data).",
+            "formulas over the real loaded data)."
+            " Ground checks: a default-constructed potential / Integrals() evaluates the integrals directly on every one of 1300 calls; with useDefaultInterpolation=True the shipped tables are used with adaptive updates off and CONSTANT continuation on both sides.",
     "note": "Accuracy of quad() and that the tables reproduce the integrals is "
             "NOT decidable by this technique and is not claimed; the table scan only detects localised corruption.",
 }
